@@ -211,3 +211,77 @@ theorem valid_cons (cfg st p ps) :
     cases toRootOk cfg st.dst.name (norm cfg p) <;> simp
 
 end Modify
+
+namespace Modify
+
+/-! ### the same for `replace_logic` -/
+
+theorem reappend_name (pp : List Str) (nm : Str) (t : Tree) : (reappend pp nm t).name = t.name := by
+  unfold reappend
+  apply modifyAt_name
+  intro x
+  split <;> simp
+
+theorem reappendAll_name (pp : List Str) (ns : List Str) (t : Tree) :
+    (reappendAll pp ns t).name = t.name := by
+  induction ns generalizing t with
+  | nil => rfl
+  | cons n ns ih => simp [reappendAll, ih, reappend_name]
+
+theorem replaceAt_name {live0 fp dp pp Fm t0 t} (h : replaceAt live0 fp dp pp Fm t0 = .ok t) :
+    t.name = t0.name := by
+  unfold replaceAt at h
+  simp only at h
+  split at h
+  · simp at h
+  · split at h
+    · simp at h
+    · rename_i t2 h2
+      simp at h; subst h
+      rw [reappendAll_name, attachOne_name h2]
+      split <;> simp
+
+theorem stepReplace_name {cfg st pr st'} (h : stepReplace cfg st pr = .ok st') :
+    st'.dst.name = st.dst.name ∧ st'.src = st.src := by
+  unfold stepReplace at h
+  split at h
+  · simp at h
+  · split at h
+    · simp at h; subst h; exact ⟨rfl, rfl⟩
+    · simp at h
+  · split at h
+    · simp at h
+    · split at h
+      · simp at h
+      · simp at h
+      · split at h
+        · simp at h
+        · simp only at h
+          split at h
+          · simp at h
+          · split at h
+            · simp at h
+            · rename_i fp0 _ _ _ _ _ _ _ _ _ _ _ t2 h2
+              simp at h; subst h
+              refine ⟨?_, rfl⟩
+              simp only
+              rw [replaceAt_name h2]
+              have key : ∀ (b : Bool) (q : List Str),
+                  (if b = true then modifyAt q (setKids []) st.dst else st.dst).name = st.dst.name := by
+                intro b q; cases b
+                · rfl
+                · exact modifyAt_name _ _ (fun x => setKids_name [] x) _
+              exact key _ _
+
+theorem validReplace_congr {cfg st st'} (h1 : st'.dst.name = st.dst.name)
+    (h2 : st'.tree.name = st.tree.name) (ps) : validReplace cfg st' ps = validReplace cfg st ps := by
+  unfold validReplace; rw [h1, h2]
+
+theorem validReplace_cons (cfg st p ps) :
+    validReplace cfg st (p :: ps) = (validReplace cfg st [p] && validReplace cfg st ps) := by
+  unfold validReplace
+  simp only [List.map_cons, List.all_cons, List.map_nil, List.all_nil, Bool.and_true]
+  cases cfg.withFullPath <;> cases fromRootOk cfg st.tree.name (norm cfg p) <;>
+    cases toRootOk cfg st.dst.name (norm cfg p) <;> simp
+
+end Modify
